@@ -59,7 +59,11 @@ func applyDiskFault(fs, before *simos.FS, f DiskFault, sector int) bool {
 		if len(f.Params) == 0 || len(cur) == 0 {
 			return false
 		}
-		fs.Files[f.File] = append([]byte(nil), cur[:f.Params[0]%len(cur)]...)
+		n := f.Params[0] % len(cur)
+		if len(f.Params) > 1 && f.Params[1] < len(cur) {
+			n = f.Params[1] // only the first few bytes made it
+		}
+		fs.Files[f.File] = append([]byte(nil), cur[:n]...)
 	case "torn":
 		// power loss before the data was synced: the listed sectors hold the
 		// new content, the others what was there before (zeros if nothing)
@@ -90,6 +94,9 @@ func applyDiskFault(fs, before *simos.FS, f DiskFault, sector int) bool {
 			n[j] = 0
 		}
 		fs.Files[f.File] = n
+	case "bom":
+		// an editor or a text-mode tool put a UTF-8 byte order mark in front
+		fs.Files[f.File] = append([]byte{0xEF, 0xBB, 0xBF}, cur...)
 	case "crlf":
 		// a text-mode transfer rewrote the line endings
 		fs.Files[f.File] = []byte(strings.ReplaceAll(string(cur), "\n", "\r\n"))
@@ -397,6 +404,9 @@ func genCase13(c *Chooser) C13Case {
 	if iv.yaml && c.Chance(1, 10) {
 		g.YAMLFloats = true
 	}
+	if iv.yaml && c.Chance(1, 8) {
+		g.YAMLKeys = true
+	}
 	docs := lineage(c, g, k)
 	cs := C13Case{Sector: []int{1, 8, 64, 512}[c.Int(4)], FileChunk: []int{0, 0, 1, 64}[c.Int(4)], Artefact: "p"}
 	ext := ".json"
@@ -446,7 +456,9 @@ func genCase13(c *Chooser) C13Case {
 			if c.Chance(1, 8) {
 				df.File = "" // filled in below: the target document is damaged instead
 			}
-			switch c.Pick(3, 3, 3, 1, 2, 1, 2, 2, 2, 1, 1, 1) {
+			switch c.Pick(3, 3, 3, 1, 2, 1, 2, 2, 2, 1, 1, 1, 2) {
+			case 12:
+				df.Kind = "bom"
 			case 7:
 				df.Kind = "crlf"
 			case 8:
@@ -469,6 +481,9 @@ func genCase13(c *Chooser) C13Case {
 			case 1:
 				df.Kind = "truncate"
 				df.Params = []int{c.Int(1 << 16)}
+				if c.Chance(1, 4) {
+					df.Params = append(df.Params, c.Int(4))
+				}
 			case 2:
 				df.Kind = "torn"
 				for y := 0; y < 64; y++ {
